@@ -146,6 +146,13 @@ func (m *MonC02) AfterBlock(o *BlockOutcome) {
 		}
 	}
 	rep.Eval("C02.payout")
+	if len(o.Matured) > 0 {
+		var ms []string
+		for _, u := range o.Matured {
+			ms = append(ms, shortKey(u.Key()))
+		}
+		rep.Sample(map[string]any{"observed": "end-of-block payout", "block_time_unix_ns": T.UnixNano(), "matured_reference_entries": ms, "transfers_from_custody": len(o.EndEv.Transfers)})
+	}
 	keys := map[[2]string]bool{}
 	for k := range want {
 		keys[k] = true
@@ -429,6 +436,9 @@ func (m *MonC07) judge(s *SlashRecord) {
 	}
 	v := m.R.judgeSlash(s)
 	rep.Class("C07." + slashClass(m.R, s, v))
+	if v.reduced > 0 {
+		rep.Sample(map[string]any{"observed": "slash callback", "validator": m.R.W.Name(s.Val), "fraction": s.Fraction.String(), "real": s.Real, "entries_reduced": v.reduced, "pending_redelegations_out": v.hits, "unbondings_before": shortKeys(s.Pre.UnbKeys()), "unbondings_after": shortKeys(s.Post.UnbKeys())})
+	}
 	rep.Eval("C07.unbond.exact-scoped")
 	if v.unbMsg != "" {
 		rep.Violate("C07", "C07.unbond.exact-scoped", s.Idx, "%s", v.unbMsg)
@@ -928,4 +938,15 @@ func subshareReset(pre, post *Snap, denom string, src, dst PosKey, amt *big.Rat,
 		}
 	}
 	return "", false
+}
+
+func shortKeys(ks []string) []string {
+	var out []string
+	for i, k := range ks {
+		if i >= 8 {
+			break
+		}
+		out = append(out, shortKey(k))
+	}
+	return out
 }
